@@ -11,7 +11,7 @@ import (
 const sigF1 = "absorb_overtakes_unacked"
 
 func c01Weights() hWeights {
-	return hWeights{deliver: 36, ack: 26, save: 8, savefail: 3, savebegin: 10, saveend: 8, crash: 6, savequeue: 4,
+	return hWeights{deliver: 36, ack: 26, save: 8, savefail: 3, savebegin: 10, saveend: 8, crash: 6, savequeue: 4, end: 4, rebalance: 2,
 		absorbed: 18, maxVb: scale(6, 16), minOps: 1, maxOps: scale(80, 300)}
 }
 
